@@ -32,13 +32,13 @@ META = {
     "C08": dict(engine="E4-enum", tech="bounded-exhaustive relational checking incl. all evaluation sequences of length <=3 on one loss object (explicit-state over evaluation histories)",
                 text="Purity, history-independence, weight-linearity, zero-weight, coordinate and ensemble permutation invariance, non-negativity/zero-at-identity and wrong-length rejection are checked on every element of a finite lattice of data, weights, filters and loss classes (built-ins and stub user losses).",
                 note="LikelihoodLoss overrides compute_loss; the weight-linearity clause is not applied to it (documented: weights ignored)."),
-    "C09": dict(engine="E2-opseq+E1", tech="explicit-state search over {calibrate(1), calibrate(2), restore} histories for round-robin line-ups of 1-6 samplers with logged sample() calls; every scripted agent action sequence for RL; constructor argument combinations",
+    "C09": dict(engine="E2-opseq+E1", tech="explicit-state search over {calibrate(1), calibrate(2), restore} histories for round-robin line-ups of 1-6 samplers with logged sample() calls; every scripted agent action sequence for RL under all interleavings (sleep-set reduced); constructor argument combinations",
                 text="Lifetime batch i must be produced by sampler i mod n with that sampler's batch size over every explored history; under RL the first batch is Halton and every later batch is the agent's chosen index.",
                 note="RL + restore is not reachable (RLScheduler is not picklable: known finding of C04)."),
-    "C10": dict(engine="E1-sched", tech="stateless model checking of the real RLScheduler/env/agent on real threads serialised by a baton: all interleavings at queue/thread/shared-attribute points for small shapes, preemption-bounded line-granularity exploration beyond; sequential reference monitor on every execution",
-                text="Every schedule of the calibration thread and the agent thread within the stated bounds is executed on the implementation and checked by a reference monitor (learn exactly once per executed batch with the right reward and action, nothing left in queues, no deadlock, same sampler sequence in every schedule).",
-                note="Within one source line bytecode interleavings are not explored; shapes up to 3 sessions x 3 batches."),
-    "C11": dict(engine="E2-opseq+E1", tech="fault enumeration: a distinguishable exception injected at every invocation index of model, loss and each sampler for both scheduler kinds, with and without saving folder; RL fault positions additionally under the controlled-thread explorer",
+    "C10": dict(engine="E1-sched", tech="stateless model checking of the real RLScheduler/env/agent on real threads serialised by a baton: ALL interleavings at queue/thread/shared-attribute points modulo commutation of independent steps (sleep-set partial-order reduction, cross-checked against the unreduced search), unreduced preemption-bounded search, and line-granularity exploration with a preemption bound; sequential reference monitor on every execution; second driver = real Calibrator.calibrate",
+                text="Every schedule of the calibration thread and the agent thread within the stated bounds is executed on the implementation and checked by a reference monitor (learn exactly once per executed batch with the right reward and action, nothing left in queues, no deadlock, same sampler sequence in every schedule). Tier A has no preemption bound: sleep sets cut only executions equivalent to an explored one.",
+                note="The reduction assumes that between two scheduling points a thread touches only thread-local state or state behind a point; Tier B (every source line of black_it/schedulers a scheduling point, preemption bound 1/2) does not assume it. Within one source line bytecode interleavings are not explored; shapes up to 3 sessions x 3 batches."),
+    "C11": dict(engine="E2-opseq+E1", tech="fault enumeration: a distinguishable exception injected at every invocation index of model, loss and each sampler for both scheduler kinds, with and without saving folder; RL fault positions under the controlled-thread explorer (all interleavings modulo independence); convergence break under RL",
                 text="For every fault position the real calibrate() must raise that exception, leave the history equal to the fault-free prefix, leave no thread behind, and accept a further calibrate().",
                 note="n_jobs=1 (fault position must be owned)."),
     "C12": dict(engine="E4-enum", tech="exhaustive enumeration of all draw scripts over a 4-row universe for every (history, batch size, pass budget) cell, against a reference model of the dedup loop",
